@@ -131,6 +131,21 @@ def programs(tier):
             for bname, body in [("!i >> 1", "(!i >> 1) as u64"), ("(i << 31) | i", "((i << 31) | i) as u64"), ("size_of_val(&i)", "core::mem::size_of_val(&i) as u64"), ("i.wrapping_sub(1) / 3", "(i.wrapping_sub(1) / 3) as u64"), ("i.count_zeros()", "i.count_zeros() as u64")]:
                 prog(f"array::{mac}(|i| {bname}) len {n} (index type)", False, n, "u64", "", f"konst::array::{mac}(|i| {body})", f"core::array::from_fn::<u64, {n}, _>(|i| {body})")
                 prog(f"array::{mac}([u64; {n}] => |i| {bname}) (index type)", False, n, "u64", "", f"konst::array::{mac}([u64; {n}] => |i| {body})", f"core::array::from_fn::<u64, {n}, _>(|i| {body})")
+    # ---------- item / generic-parameter hygiene of collect_const!: `const` items and the generic parameters of a helper fn
+    # declared inside a macro body are not hygienic, so a user constant or type alias of the same name inside the
+    # invocation must still mean the user's (names read from the macro's source, obfuscated `__`/`_KO9Y…` ones excluded)
+    for nm in hygiene_names():
+        up = nm.upper() if nm[0].islower() else nm
+        body = [f"const {up}: usize = 10;", f"const K1: &[usize] = &konst::iter::collect_const!(usize => 0..3usize, map(|x| x + {up}));",
+                f"const K2: &[usize] = &konst::iter::collect_const!(usize => 0..{up}, take(3));", f"const K3: &[usize] = &konst::iter::collect_const!(usize => 8..12usize, filter(|x| *x >= {up}));",
+                f"out.push(({e3_js('collect_const! with a user constant named ' + up + ' (map)')}.to_string(), format!(\"{{:?}}\", K1), format!(\"{{:?}}\", (0..3usize).map(|x| x + {up}).collect::<Vec<_>>())));",
+                f"out.push(({e3_js('collect_const! with a user constant named ' + up + ' (range bound)')}.to_string(), format!(\"{{:?}}\", K2), format!(\"{{:?}}\", (0..{up}).take(3).collect::<Vec<_>>())));",
+                f"out.push(({e3_js('collect_const! with a user constant named ' + up + ' (filter)')}.to_string(), format!(\"{{:?}}\", K3), format!(\"{{:?}}\", (8..12usize).filter(|x| *x >= {up}).collect::<Vec<_>>())));"]
+        P.append((f"collect_const! hygiene: user constant {up}", False, body))
+        ty = nm[0].upper() + nm[1:] if nm[0].islower() else nm
+        body2 = [f"#[allow(non_camel_case_types)] type {ty} = u16;", f"const K: &[{ty}] = &konst::iter::collect_const!({ty} => &[1u16, 2, 3], copied(), map(|x: {ty}| x * 2));",
+                 f"out.push(({e3_js('collect_const! with a user type alias named ' + ty)}.to_string(), format!(\"{{:?}}\", K), \"[2, 4, 6]\".to_string()));"]
+        P.append((f"collect_const! hygiene: user type alias {ty}", False, body2))
     # ---------- collect_const! with hostile closures: must be rejected, or yield only produced values
     for n in range(0, maxn + 1):
         vals = ", ".join(str(i + 1) for i in range(n))
@@ -150,6 +165,21 @@ def programs(tier):
                 body.append(f"out.push(({e3_js(name)}.to_string(), format!(\"{{:?}}\", K), format!(\"{{:?}}\", IN.iter().map(|x| (*x as u16) * 3 + 1).collect::<Vec<_>>())));")
             P.append((name, hostile, body))
     return P
+
+
+def hygiene_names():
+    import re, os
+    names = {"CAP", "LEN", "N", "Ret", "ARR", "COUNT", "T", "Item", "OUT"}
+    f = "/repo/konst_kernel/src/collect_const.rs"
+    if os.path.exists(f):
+        src = open(f, errors="replace").read()
+        names.update(re.findall(r"\bconst\s+([A-Za-z_][A-Za-z0-9_]*)\s*:", src))
+        for g in re.findall(r"fn\s+\w+\s*<([^>]*)>", src):
+            for part in g.split(","):
+                m = re.match(r"\s*(?:const\s+)?([A-Za-z_][A-Za-z0-9_]*)", part)
+                if m:
+                    names.add(m.group(1))
+    return sorted(n for n in names if not n.startswith("__") and "_KO9Y" not in n and "81608" not in n and n not in ("_", "usize", "Self"))
 
 
 def e3_js(s):
